@@ -6,7 +6,8 @@ WT=$(mktemp -d /tmp/wt-seed-XXXXXX)
 git -C /repo worktree add --detach "$WT" HEAD >/dev/null 2>&1
 trap 'git -C /repo worktree remove --force "$WT" >/dev/null 2>&1; rm -rf "$WT"' EXIT
 DEMO=$(ls $D/demo.py $D/test_demo.py 2>/dev/null | head -1)
-run_demo() { (cd "$WT" && sed "s#/tmp/seed-$PROP#$WT#g" "$DEMO" > "$WT/_demo.py" && timeout 300 /venv/bin/python "$WT/_demo.py" >/dev/null 2>&1); echo $?; }
+PYI=/venv/bin/python; grep -q '"interpreter": *"python3-vt"' "$D/meta.json" 2>/dev/null && PYI=python3-vt
+run_demo() { (cd "$WT" && sed "s#/tmp/seed-$PROP#$WT#g" "$DEMO" > "$WT/_demo.py" && PYTHONPATH="$WT" timeout 300 $PYI "$WT/_demo.py" >/dev/null 2>&1); echo $?; }
 C=$(run_demo)
 if ! git -C "$WT" apply "$D/patch.diff" 2>/dev/null; then echo "$PROP $(basename $D): PATCH DOES NOT APPLY"; exit 0; fi
 M=$(run_demo)
